@@ -165,6 +165,49 @@ fn main() {
             }
         }
     }
+    // the same words in every configuration-string position (first / later namespace,
+    // configured dimension name, log group), alone and all at once, over the base frames
+    let mut cfg_cases = 0u64;
+    let mut short_words: Vec<String> = classes.iter().map(|c| c.to_string()).collect();
+    short_words.extend(words.iter().filter(|w| w.chars().count() == 2).cloned());
+    for w in &short_words {
+        let mut cs: Vec<CfgD> = Vec::new();
+        let mut c = CfgD::simple(Ctor::NoValidations); c.namespaces = vec![w.clone()]; cs.push(c);
+        let mut c = CfgD::simple(Ctor::AllValidations); c.default_dims = vec![vec![w.clone()]]; cs.push(c);
+        let mut c = CfgD::simple(Ctor::Builder); c.namespaces = vec![w.clone(), "NS".into()]; cs.push(c);
+        let mut c = CfgD::simple(Ctor::Builder); c.namespaces = vec!["NS".into(), w.clone(), format!("x{w}")]; cs.push(c);
+        let mut c = CfgD::simple(Ctor::Builder); c.log_group = Some(w.clone()); cs.push(c);
+        let mut c = CfgD::simple(Ctor::BuilderSkipTrue);
+        c.namespaces = vec![w.clone(), format!("{w}2")];
+        c.default_dims = vec![vec![], vec![w.clone()], vec![w.clone(), format!("{w}{w}")]];
+        c.log_group = Some(w.clone());
+        c.extra_directive = true;
+        cs.push(c);
+        for cfg in &cs {
+            let p = cfg.build();
+            for frame in frames(tier) {
+                for values in [
+                    vec![],
+                    vec![("m".to_string(), ValD::Metric { obs: vec![Obs::U(1)], unit: UnitD::None, dims: vec![], flag: FlagD::None })],
+                    vec![("m".to_string(), ValD::Metric { obs: vec![Obs::F(1.5), Obs::F(f64::NAN)], unit: UnitD::None, dims: vec![], flag: FlagD::None }),
+                         ("d".to_string(), ValD::Metric { obs: vec![Obs::U(2)], unit: UnitD::None, dims: vec![("k".to_string(), w.clone())], flag: FlagD::None })],
+                ] {
+                    let entry = build_entry(cfg, frame, values);
+                    check(&mut st, cfg, &p, &entry);
+                    cfg_cases += 1;
+                    if let Ok(recs) = parse_output(&st.out) {
+                        let want: Vec<&String> = cfg.namespaces.iter().collect();
+                        for r in &recs {
+                            let got: Vec<&String> = r.directives.iter().map(|d| &d.ns).take(want.len()).collect();
+                            if got != want {
+                                st.v.add("config-string-round-trip", format!("namespaces {want:?} come out as {got:?}"), json!({"config": cfg.to_json(), "entry": entry.to_json()}));
+                            }
+                        }
+                    }
+                }
+            }
+        }
+    }
     states.push(st);
 
     let mut shapes = BTreeSet::new();
@@ -185,6 +228,7 @@ fn main() {
     rep.set("output_bytes_parsed", bytes);
     rep.set("multi_record_outputs", multi);
     rep.set("unicode_scalar_cases", uni_cases);
+    rep.set("config_string_cases", cfg_cases);
     rep.set("layers", layer_sizes);
     rep.set("configurations", configs(tier).len() as u64);
     rep.assume("oracle = own strict RFC 8259 parser (vh-common/src/json.rs), independent of serde_json");
